@@ -556,6 +556,8 @@ def run(pid, tier):
     rep.subclaims[-1]["concrete_validation"] = {"inputs": nval, "mismatches": mism, "function": "apply_escaped_filter_bytes"}
     # regex
     exprs = regex_expressions("ab|", 3 if q else 4) + ["a|b", "ab|c", "a|bc", "(a|b)", "a(b|c)", "a.*", ".*a", "a|b|c", "a*|b", "(?:a|b)c"]
+    # expressions that carry their own anchors / escaped anchor characters (whole-line matching must not depend on how they are written)
+    exprs += regex_expressions("a|^$\\", 3 if q else 4)
     if not q:
         exprs += regex_expressions("a|.*", 4)
     exprs = sorted(set(exprs))
@@ -563,7 +565,7 @@ def run(pid, tier):
     for _ in range(60):
         e = rnd.choice(exprs)
         val.append([e2.concrete_str(e), e2.concrete_bytes(rnd_str("abc", 4).encode() + rnd.choice([b"", b"\n"]))])
-    e2.process(rep, prog, NAT, h_regex(exprs, 3 if q else 4, "alphabet{a,b,|}+curated"), tier, validate_inputs=val,
+    e2.process(rep, prog, NAT, h_regex(exprs, 3 if q else 4, "alphabets{a,b,|},{a,|,^,$,\\}+curated"), tier, validate_inputs=val,
                to_native_args=lambda a: ["regex", a[0], a[1]], compare=rule_cmp)
     # cram glob
     pats = sorted(set("".join(t) for n in range(0, (3 if q else 4) + 1) for t in itertools.product("a*?\\.", repeat=n)))
